@@ -231,11 +231,19 @@ def imgEnts (c : Codec) (img : Dev) (o : Opened) (rd : List Bytes → Inode → 
       | some s, some sub, some rest => some (s :: (sub ++ rest))
       | _, _, _ => none
 
+/-- what `getDirectoryEntries` hands to `getDirectory` for a directory inode: start block, offset and
+    the inode's file_size as it stands — 3 more than the listing is long (the format counts "." and
+    ".."), so 3 bytes beyond the listing are read and then ignored by `parseDirectory` -/
+def dirAsk : IBody → Option (Nat × Nat × Nat)
+  | .basicDir sb _ fs off _ => some (sb, off, fs)
+  | .extDir _ fs sb _ off _ => some (sb, off, fs)
+  | _ => none
+
 /-- everything below the directory whose inode is `ino` -/
 def imgWalk (c : Codec) (img : Dev) (o : Opened) : Nat → List Bytes → Inode → Option (List ImgEnt)
   | 0, _, _ => none
   | fuel+1, pre, ino =>
-    match listingRef ino.body with
+    match dirAsk ino.body with
     | none => some []
     | some (sb, off, sz) =>
       match getDirM c img o.dirStart sb off sz with
@@ -308,7 +316,7 @@ def STree.walkS (t : STree) (a : Nat → Attr) : Nat → List Bytes → Nat → 
 /-- the image shows the tree to go-diskfs' reader: at every entry's reference `readMetadata`
     answers from a stream that starts with the entry's inode (and is long enough for what
     `getInode` asks); at every directory's listing reference it answers from a stream that starts
-    with the listing; owner indices are in the id table; file contents come out of the data and
+    with the listing and goes on for at least the 3 bytes the reader asks for beyond it; owner indices are in the id table; file contents come out of the data and
     fragment blocks -/
 structure ImgShows (c : Codec) (img : Dev) (o : Opened) (t : STree) (a : Nat → Attr) : Prop where
   closed : ∀ d, d < t.n → ∀ k ∈ t.kids d, k < t.n
@@ -316,9 +324,9 @@ structure ImgShows (c : Codec) (img : Dev) (o : Opened) (t : STree) (a : Nat →
       (t.ino k).ask ≤ (encodeInode (t.ino k) ++ rest).length ∧ typeSize (t.dent k).typ ≤ (encodeInode (t.ino k) ++ rest).length
   inodeWF : ∀ k, k < t.n → (t.ino k).WF o.bs
   entWF : ∀ k, k < t.n → (t.dent k).WF 0 ∧ 16 ≤ typeSize (t.dent k).typ
-  listing : ∀ d, d < t.n → ∀ sb off sz, listingRef (t.ino d).body = some (sb, off, sz) →
+  listing : ∀ d, d < t.n → ∀ sb off sz, dirAsk (t.ino d).body = some (sb, off, sz) →
       ∃ rest, ReadsFrom c img o.dirStart sb off (encodeListing 0 ((t.kids d).map t.dent) ++ rest) ∧
-        sz = (encodeListing 0 ((t.kids d).map t.dent)).length
+        sz = (encodeListing 0 ((t.kids d).map t.dent)).length + 3 ∧ 3 ≤ rest.length
   owner : ∀ k, k < t.n → o.ids[(t.ino k).hdr.uid]? = some (a k).uid ∧ o.ids[(t.ino k).hdr.gid]? = some (a k).gid
   content : ∀ k, k < t.n → fileBytes c img o.bs o.frags (t.ino k).body = some (a k).data
 
